@@ -7,6 +7,7 @@ Roles (DESIGN.md A3):
   RESULT  any other mpsc channel (error collection in the try-concurrent paths)
   SETUP   the function allocating READY and DONE
 """
+import re
 from analysis import Flow, Src, expr_operand, expr_local, strip_refs, fmt_src
 from facts import callee_path, is_param_call
 
@@ -380,7 +381,7 @@ class Model:
         root = self.fb.bodies.get(b.root)
         rsig = self.fb.fns.get(b.root) or {}
         if b.kind == "closure" and root is not None and root.kind == "fn" and root.id != b.id and not rsig.get("public") and \
-                "Stream" in ((rsig.get("output") or {}).get("s") or ""):
+                re.search(r"\bStream\b", (rsig.get("output") or {}).get("s") or ""):
             ps = [x for x in self.flow.sources_operand(b, t["args"][0], (), "prov@" + root.id)]
             pidx = [x[2] for x in ps if x.kind == "param" and x[1] == root.id and not x[3]]
             sites = [(c2, b2, t2) for (c2, b2, t2) in self.flow.call_sites().get(root.id, []) if not self.fb.is_test_body(c2)]
